@@ -87,11 +87,6 @@ theorem afterLast_eq (cs : CaseMode) (s : List Nat) (sep : Sep) (hs : s.length <
     bytesOf (afterLast cs s sep) = .ok (Spec.Slice.afterLast cs s sep.bytes) :=
   good_bytes (afterLast_good cs s sep hs)
 
-theorem take_window_drop (s : List Nat) (i n : Nat) :
-    s.take i ++ window s i n ++ s.drop (i + n) = s := by
-  unfold window
-  rw [List.append_assoc, ← List.drop_drop, List.take_append_drop, List.take_append_drop]
-
 /-- whenever the separator occurs, `before_first ++ (the occurrence) ++ after_first` is the original
     string, the occurrence being the first one; in the case-sensitive mode the occurrence is the
     separator itself -/
